@@ -32,9 +32,15 @@ RULE = (
     "trace (ticks, values) equals the trace of the same scenario without the operator, callbacks saw exactly the "
     "notifications of that trace in order; with a raising callback the trace is the bare trace up to that notification "
     "followed by on_error(that exception) at the same tick. Non-trivial: terminal and disposal within one tick of each "
-    "other, or a factory/callback fault was injected and reached. Distinct = distinct case JSON."
+    "other, or a factory/callback fault was injected and reached. Check `teardown`: the same scenarios with something "
+    "UPSTREAM of the judged finally_action / do_finally raising from dispose() during teardown (a source whose unsubscribe "
+    "raises, an inner finally_action whose action raises, a raising do_on_dispose callback, a using() resource whose "
+    "dispose raises); that exception may come out of dispose()/subscribe() or escape into the emitter and is tolerated "
+    "(draining continues); the judged action must still run exactly once per terminated/disposed subscription at tick "
+    "min(terminal, disposal); non-trivial there: the upstream teardown actually raised. Distinct = distinct case JSON."
 )
 ASSUMPTIONS = [
+    "raising teardown: only exceptions raised UPSTREAM of the judged finally operator are injected and judged; a judged finally action that itself raises is not generated (unspecified). For using() a resource left undisposed after its inner subscription's dispose() raised is recorded as a class, not judged (only a double release fails)",
     "finally actions, do_on_subscribe, do_on_dispose and do_after_terminate callbacks do not raise (the property text does not say what happens then)",
     "the resource's own dispose() is counted per call (a second call is a violation even though library disposables are idempotent)",
     "do_finally, do_after_next, do_on_* are taken from reactivex.operators._do (they are not exported through reactivex.operators)",
@@ -404,6 +410,154 @@ def _run_finally(case):
 
 
 # ---------------------------------------------------------------------------------------
+# (b') raising teardown: something UPSTREAM of the judged operator raises from dispose()
+
+
+class BadRes(Res):
+    """A resource whose dispose() raises after logging the call."""
+
+    def dispose(self):
+        super().dispose()
+        raise Tagged(f"teardown:res{self.idx}")
+
+
+def _tolerated(e):
+    return isinstance(e, Tagged) and (e.tag.startswith("teardown:") or e.tag.startswith("inj:up"))
+
+
+def _drive_tolerant(lab, obs, subs):
+    """Like _drive, but the upstream teardown exception may come out of subscribe()/dispose() or escape into the
+    emitter (and from there out of scheduler.start()): exactly those exceptions are tolerated and draining continues."""
+    probes = []
+    seen = []
+
+    def guard(f):
+        def g():
+            try:
+                f()
+            except Tagged as e:
+                if not _tolerated(e):
+                    raise
+                seen.append(e.tag)
+
+        return g
+
+    for i, s in enumerate(subs):
+        d = s["disp"]
+        p = _probe(lab, f"p{i}", dispose_at_cb=(d[1] if d and d[0] == "cb" else None))
+        probes.append(p)
+
+        def do_sub(p=p, d=d, s=s):
+            if d and d[0] == "t" and d[2]:
+                # registered first so that it exists even if subscribe() itself lets the teardown exception out
+                pass
+            try:
+                p.subscribe(obs)
+            finally:
+                if d and d[0] == "t" and d[2]:
+                    lab.at(s["at"] + d[1], guard(p.dispose))
+
+        lab.at(s["at"], guard(do_sub))
+        if d and d[0] == "t" and not d[2]:
+            lab.at(s["at"] + d[1], guard(p.dispose))
+    for _ in range(40):
+        lab.run()
+        if lab.escaped is not None and _tolerated(lab.escaped) and not lab.inconclusive:
+            seen.append(lab.escaped.tag)
+            lab.escaped = None
+            continue
+        break
+    return probes, seen
+
+
+def _teardown_world(case):
+    lab = Lab()
+    up = case["up"]
+    spec = dict(case["src"])
+    resources = []
+    if up == "bad_src":
+        spec["bad_dispose"] = True
+    src = lab.source(spec)
+    o = src
+    if up == "chain":
+        lab.arm["up_fin"] = set(range(64))
+        o = o.pipe(ops.finally_action(lab.fn("up_fin", lambda: None)))
+    elif up == "on_dispose":
+        lab.arm["up_on_dispose"] = set(range(64))
+        o = _DO["do_on_dispose"](o, lab.fn("up_on_dispose", lambda: None))
+    elif up == "using":
+        inner = o
+
+        def rf():
+            r = BadRes(lab, len(resources))
+            resources.append(r)
+            return r
+
+        o = reactivex.using(rf, lambda r: inner)
+    act = lab.fn("fin", lambda: None)
+    j = case["op"]
+    if j == "finally_action":
+        o = o.pipe(ops.finally_action(act))
+    elif j == "finally_fluent":
+        o = o.finally_action(act)
+    elif j == "do_finally":
+        o = o.pipe(_DO["do_finally"](act))
+    elif j == "using":
+        inner2 = o
+
+        def rf2():
+            r = Res(lab, len(resources))
+            resources.append(r)
+            return r
+
+        o = reactivex.using(rf2, lambda r: inner2)
+    else:
+        raise HarnessError(j)
+    o = _post(o, case.get("post"))
+    probes, seen = _drive_tolerant(lab, o, case["subs"])
+    return lab, probes, seen, resources
+
+
+def _run_teardown(case):
+    if case["op"] == "do_finally" and _DO["do_finally"] is None or case["up"] == "on_dispose" and _DO["do_on_dispose"] is None:
+        return SKIP("no-such-operator")
+    lab, probes, seen, resources = _teardown_world(case)
+    if lab.inconclusive:
+        return SKIP(lab.inconclusive)
+    tag = f"teardown:{case['op']}"
+    if lab.escaped is not None:
+        return FAIL(f"{tag}:escaped:{type(lab.escaped).__name__}", f"{lab.escaped!r} (not the upstream teardown exception) escaped; case={case}")
+    post = case.get("post")
+    cls = _classes(probes, case) + ["up:" + case["up"]]
+    if seen:
+        cls.append("teardown-raised")
+    if post is not None and post[1] == 0:
+        return OK(False, cls)
+    exp = sorted(e for e in (_end_tick(p) for p in probes) if e is not None)
+    if case["op"] == "using":
+        judged = [r for r in resources if not isinstance(r, BadRes)]
+        got = sorted(d[0] for r in judged for d in r.disposed)
+        per = [len(r.disposed) for r in judged]
+        what = "resource disposed"
+    else:
+        calls = [e for e in lab.cb_log if e[2] == "fin"]
+        got = sorted(c[0] for c in calls)
+        per = None
+        what = "finally action ran"
+    if case["op"] == "using" and seen and not any(n > 1 for n in per):
+        # using() makes no visible promise for an inner subscription whose dispose() raises (its CompositeDisposable
+        # walks its children unprotected): a missed release is recorded, not judged; a double release still fails.
+        if len(got) != len(exp):
+            cls.append("unjudged:using-resource-not-released-after-raising-inner-teardown")
+        return OK(True, cls)
+    if len(got) != len(exp) or (per is not None and any(n > 1 for n in per)):
+        return FAIL(f"{tag}:count|up={case['up']}", f"{what} {len(got)} times at {got}; expected exactly once per terminated/disposed subscription at {exp} although upstream teardown raised {seen}; case={case}")
+    if got != exp:
+        return FAIL(f"{tag}:time|up={case['up']}", f"{what} at {got}; expected {exp}; upstream teardown raised {seen}; case={case}")
+    return OK(bool(seen), cls)
+
+
+# ---------------------------------------------------------------------------------------
 # (c) do_* family
 
 _DO_VARIANTS = ["do_action", "do_observer", "do_fluent", "do_action_fluent", "do_after_next", "do_on_subscribe", "do_on_dispose", "do_on_terminate", "do_after_terminate"]
@@ -618,9 +772,25 @@ def _do_cases(draw):
     return case
 
 
+@st.composite
+def _teardown_cases(draw):
+    src = draw(_src)
+    post = draw(st.one_of(st.none(), st.none(), st.tuples(st.just("take"), st.integers(0, 4)).map(list)))
+    n = draw(st.integers(1, 2))
+    subs = [draw(_sub(src)) for _ in range(n)]
+    return {
+        "op": draw(st.sampled_from(["finally_action", "finally_action", "finally_fluent", "do_finally", "using"])),
+        "up": draw(st.sampled_from(["bad_src", "chain", "on_dispose", "using"])),
+        "src": src,
+        "post": post,
+        "subs": subs,
+    }
+
+
 def checks(tier):
     return [
         Check("using", _run_using, strategy=_using_cases(), examples={"quick": 2400, "thorough": 16 * 20000}, shards={"quick": 4, "thorough": 16}),
         Check("finally", _run_finally, strategy=_finally_cases(), examples={"quick": 3000, "thorough": 16 * 20000}, shards={"quick": 4, "thorough": 16}),
+        Check("teardown", _run_teardown, strategy=_teardown_cases(), examples={"quick": 1600, "thorough": 16 * 10000}, shards={"quick": 4, "thorough": 16}),
         Check("do", _run_do, strategy=_do_cases(), examples={"quick": 2400, "thorough": 16 * 20000}, shards={"quick": 4, "thorough": 16}),
     ]
